@@ -108,7 +108,12 @@ fn main() {
         for order in orders {
             perms += 1;
             let reqs: Vec<ConstraintRequest> = order.iter().map(|k| sys.reqs[*k]).collect();
-            let other = match solve_analysis(&reqs, sys.guesses.clone(), sys.config()) {
+            let attempt = std::panic::catch_unwind(std::panic::AssertUnwindSafe(|| solve_analysis(&reqs, sys.guesses.clone(), sys.config())));
+            let Ok(attempt) = attempt else {
+                out.push(Violation { property: "C12", what: "a permuted request list makes the solver panic while the original succeeds".into(), signature: "perm-panics".into(), system: Some(sys.clone()), extra: format!("{order:?}") });
+                continue;
+            };
+            let other = match attempt {
                 Ok(o) => o,
                 Err(e) => {
                     // an inconsistent, rank-deficient system can drift forever along the null space
@@ -183,7 +188,12 @@ fn main() {
             for (old, (_, val)) in sys.guesses.iter().enumerate() {
                 g[pi[old] as usize] = (pi[old], *val);
             }
-            let other = match solve_analysis(&reqs, g, sys.config()) {
+            let attempt = std::panic::catch_unwind(std::panic::AssertUnwindSafe(|| solve_analysis(&reqs, g, sys.config())));
+            let Ok(attempt) = attempt else {
+                out.push(Violation { property: "C12", what: "a renumbered system makes the solver panic while the original succeeds".into(), signature: "renumber-panics".into(), system: Some(sys.clone()), extra: format!("{pi:?}") });
+                continue;
+            };
+            let other = match attempt {
                 Ok(o) => o,
                 Err(e) => {
                     let drift = matches!(e.error, NonLinearSystemError::DidNotConverge) && indep_drift(&sys, &base);
